@@ -37,7 +37,7 @@ TECHNIQUE = (
 )
 RULE = (
     "full product of model class {EOF, SparsePCA, POP, CPCCA, MCA, EOFRotator, MCARotator, multi.CCA} x container {DataArray, Dataset, list} "
-    "(x {plain, pca, std_coslat} configuration in the thorough tier) x entry point {ctor+fit, fit, transform (X / Y), predict, inverse_transform, rotator ctor+fit, "
+    "x configuration {plain, check_nans=False; thorough: + standardize&coslat, PCA pre-reduction} x entry point {ctor+fit, fit, transform (X / Y), predict, inverse_transform, rotator ctor+fit, "
     "rotator.fit} x every applicable fault: wrong type (ndarray, list of ndarrays, None); sample dim unknown / partly unknown / empty / of wrong type / "
     "equal to all dims (no feature dim left); each dimension of each item dropped (isel with and without scalar coordinate, mean), renamed, one added; "
     "each feature coordinate shifted (disjoint, overlapping) and replaced by re-ordered different values; Dataset variable dropped / renamed / stripped "
@@ -49,8 +49,12 @@ ASSUMPTIONS = [
     "one small well-conditioned data set per container (10 samples; 6 or 8 features; new data of 5 samples) stands for 'all fitted models': the faults are structural, not numeric",
     "'more modes than the rank' is read with the rank the decomposer uses, min(shape) of the matrix it decomposes; n_modes = that + 1",
     "for rotators only non-positive / non-numeric n_modes is a fault; n_modes above the model's number of modes is not (the statement ties that clause to the rank of data)",
-    "a pure permutation of coordinate labels, a Dataset with additional variables, score arrays with additional dimensions, alpha > 1 and bool n_modes are valid calls; "
-    "they are run as controls that must not raise, not as faults",
+    "a Dataset with additional variables, score arrays with additional dimensions or a subset of the model's modes, alpha > 1 and n_modes = rank are valid calls: "
+    "they are run as controls that must not raise; a pure permutation of coordinate labels and bool n_modes are neither faults nor controls",
+    "inverse_transform(X=None, Y=scores) of a cross-set model is a valid call (one field is optional), so None is a type fault there only for single-set models",
+    "MCARotator.transform is given new values on sample labels seen in training: with unseen labels its un-mutated call returns only NaN (a C05 matter) and nothing could be decided",
+    "the quick tier keeps every fault kind on every entry point and container but thins variants (how a dim is dropped, which list item) for the costly classes "
+    "(rotators, SparsePCA, POP) and for MCA, which is CPCCA(alpha=1); the thorough tier is the full product",
     "a fault applied to a call whose un-mutated form already raises decides nothing and is reported as skipped, never as a pass",
 ]
 TALLY_KEYS = ("model", "container", "entry", "fault")
@@ -215,13 +219,17 @@ SCORE_CONTROLS = [dict(fault="extra_score_dim"), dict(fault="subset_of_modes")]
 
 
 def _confs(model, tier):
+    """plain: defaults; nocheck: check_nans=False (the NaN bookkeeping of the Sanitizer must not be what refuses a fault);
+    std_coslat: standardize + use_coslat (more stored scaling fields to broadcast against); pca: PCA pre-reduction."""
     if tier == "quick":
-        return ["plain"]
-    if model in SINGLE or model in ROT and ROT[model] in SINGLE:
-        return ["plain", "std_coslat"] + (["pca"] if model == "POP" else [])
+        return ["plain"] + (["nocheck"] if model == "EOF" else [])
+    if model in ROT:
+        return ["plain", "std_coslat"] + (["pca"] if ROT[model] in CROSS else [])
+    if model in SINGLE:
+        return ["plain", "nocheck", "std_coslat"] + (["pca"] if model == "POP" else [])
     if model in MULTI:
         return ["plain", "pca"]
-    return ["plain", "pca", "std_coslat"]
+    return ["plain", "nocheck", "pca", "std_coslat"]
 
 
 def _conts(model, tier):
@@ -249,7 +257,12 @@ def cases(tier, seed):
                 # ---------------- constructor (+ fit)
                 if not dims_conf_only:
                     for v in NMODES_FAULTS_ROT if is_rot else NMODES_FAULTS:
-                        add(model, cont, conf, "ctor_fit", dict(fault="n_modes", how=v))
+                        # which exception (if any) stops an over-large n_modes depends on the SVD route taken
+                        solvers = [None]
+                        if model in ("EOF", "SparsePCA", "CPCCA", "MCA"):
+                            solvers = ["full", "randomized", "auto"] if tier == "thorough" else (["full", "randomized"] if v == "rank+1" else ["full"])
+                        for sv in solvers:
+                            add(model, cont, conf, "ctor_fit", dict(fault="n_modes", how=v), **({"solver": sv} if sv else {}))
                     add(model, cont, conf, "ctor_fit!valid", dict(fault="n_modes_equals_rank"))
                     if not is_rot and not is_multi:
                         add(model, cont, conf, "ctor_fit", dict(fault="unknown_solver", how="string"))
@@ -396,12 +409,16 @@ def ctor_kwargs(model, conf):
             kw.pop("solver")
         if conf == "std_coslat":
             kw.update(standardize=True, use_coslat=True)
+        if conf == "nocheck":
+            kw.update(check_nans=False)
     elif base in CROSS:
         kw.update(random_state=5, solver="full", use_pca=(conf == "pca"), n_pca_modes=3)
         if base == "CPCCA":
             kw.update(alpha=0.5 if conf == "pca" else 1.0)
         if conf == "std_coslat":
             kw.update(standardize=True, use_coslat=[True, True])
+        if conf == "nocheck":
+            kw.update(check_nans=False)
     elif base in MULTI:
         kw.update(pca=(conf == "pca"), init_pca_modes=3 if conf == "pca" else 0.75)
     return kw
@@ -434,6 +451,8 @@ class Call:
         self.is_rot = model in ROT
         self.entry = case["entry"].split("!")[0]
         self.ctor = ctor_kwargs(model, conf)
+        if case.get("solver") and "solver" in self.ctor:
+            self.ctor["solver"] = case["solver"]  # part of the valid call, not a fault
         self.rot_ctor = dict(n_modes=K, power=1, max_iter=200) if self.is_rot else None
         ycont = case.get("ycont", "da")
         self.ycont = ycont
@@ -883,7 +902,7 @@ def _run_case(case, seed):
     if what == "raised":
         return dict(violations=[], outcome="rejected:%s" % type(obs).__name__, nontrivial=True, info=dict(exc=type(obs).__name__, at=_where(obs), baseline=base_desc))
     desc, n, nf = obs
-    detail = {k: v for k, v in case.items() if k not in ("model", "container", "conf", "entry", "fault")}
+    detail = {k: v for k, v in case.items() if k not in ("model", "container", "conf", "entry", "fault")}  # incl. solver
     v = viol(
         "fault_accepted",
         case["model"],
